@@ -140,18 +140,19 @@ ParseVariant(cv, v, toks) ==
          ELSE IF v.sub # "" /\ s.sub = <<>> /\ ~v.sub_optional THEN Err("missing", CommandUsage(FALSE), "", open)
          ELSE Ok(v.ident, b.f, s.sub, open)
 
-RECURSIVE ParseGroup(_, _, _, _, _)
-(* groups try their members in order; only `unknown command` passes on *)
-ParseGroup(cv, e, m, name, toks) ==
-    IF m > Len(e.members) THEN Err("unknown", <<>>, "", FALSE)
+RECURSIVE ParseGroup(_, _, _, _, _, _)
+(* groups try their members in order; only `unknown command` passes on     *)
+(* (open: some member met a situation the property leaves open)            *)
+ParseGroup(cv, e, m, name, toks, open) ==
+    IF m > Len(e.members) THEN Err("unknown", <<>>, "", open)
     ELSE LET r == ParseEnum(cv, e.members[m].enum, name, toks) IN
-         IF r.ok THEN Ok(e.members[m].ident, <<>>, <<r>>, r.open)
-         ELSE IF r.kind = "unknown" THEN ParseGroup(cv, e, m + 1, name, toks)
-         ELSE r
+         IF r.ok THEN Ok(e.members[m].ident, <<>>, <<r>>, r.open \/ open)
+         ELSE IF r.kind = "unknown" THEN ParseGroup(cv, e, m + 1, name, toks, open \/ r.open)
+         ELSE [r EXCEPT !.open = r.open \/ open]
 
 ParseEnum(cv, id, name, toks) ==
     LET e == EnumOf(id) IN
-    IF e.kind = "group" THEN ParseGroup(cv, e, 1, name, toks)
+    IF e.kind = "group" THEN ParseGroup(cv, e, 1, name, toks, FALSE)
     ELSE LET hits == {i \in 1..Len(e.variants) : e.variants[i].name_cp = name} IN
          IF hits = {} THEN Err("unknown", <<>>, "", FALSE)
          ELSE ParseVariant(cv, e.variants[CHOOSE i \in hits : \A j \in hits : i <= j], toks)
